@@ -1,6 +1,6 @@
 import FlytModel.Generated.IR
 import FlytModel.Expected.IR
-/-! The translation of `WorkerPool_Wait` from the CURRENT source is, term for term, the IR the refinement theorems are about. -/
+/-! The translation of `WorkerPool_Wait` from the CURRENT source is, term for term, the expected IR. -/
 namespace Flyt.Tie
 theorem WorkerPool_Wait : Flyt.Generated.IR.WorkerPool_Wait = Flyt.Expected.IR.WorkerPool_Wait := rfl
 end Flyt.Tie
